@@ -16,6 +16,9 @@ from . import register, A_NET, A_UMNN, T_OPS, T_NN
 from .c14 import _reduces_batch, batchnorm_flow_rule
 
 
+BATCH_ORDER_OPS = {"unique", "unique_consecutive", "sort", "argsort", "topk", "kthvalue", "median", "mode", "cumsum", "cumprod", "cummax", "cummin", "logcumsumexp", "flip", "roll"}
+
+
 class BatchDomain(TaintDomain):
     """IN: depends on the given rows (inputs / context); ('BRED', site): a reduction whose
     reduced axes include the batch axis (or a global reduction) of an IN-dependent tensor."""
@@ -51,6 +54,25 @@ class BatchDomain(TaintDomain):
             if active:
                 fi = interp.frame.func
                 site = ("RNG", fi.module.relpath, fi.qualname, norm_text(stmt_of(node) or node)[:90])
+                self.sites.setdefault(site, (fi, node, op))
+                out.add(site)
+        # operations that reorder / merge / accumulate *along* an axis: over the batch axis (dim 0, or no dim: the
+        # flattened tensor) the position and value of a row's result depend on the other rows present
+        if op in BATCH_ORDER_OPS and "IN" in anns and recv is not None and recv.kind in ("tensor", "top"):
+            d = kwargs.get("dim")
+            if d is None and args:
+                d = next((a for a in args if a.kind == "const" and isinstance(a.data, int) and not isinstance(a.data, bool)), None) if op not in ("topk", "kthvalue") else (args[1] if len(args) > 1 else None)
+            along_batch = d is None or (d.kind == "const" and d.data == 0)
+            if op in ("unique", "unique_consecutive") and d is None:
+                along_batch = True
+            if op in ("sort", "argsort", "cumsum", "cumprod", "cummax", "cummin", "logcumsumexp", "topk", "kthvalue", "median", "mode", "flip", "roll") and d is None and op not in ("flip", "roll"):
+                along_batch = op in ("median", "mode")  # sort / argsort / cum* default to the last axis
+            if op in ("flip", "roll"):
+                dd = kwargs.get("dims", d)
+                along_batch = dd is not None and ((dd.kind == "const" and dd.data == 0) or (dd.kind in ("tuple", "list") and any(getattr(x, "kind", None) == "const" and x.data == 0 for x in (dd.data if dd.kind == "tuple" else (dd.data[0] or [])))))
+            if along_batch:
+                fi = interp.frame.func
+                site = ("BRED", fi.module.relpath, fi.qualname, norm_text(stmt_of(node) or node)[:90])
                 self.sites.setdefault(site, (fi, node, op))
                 out.add(site)
         if info.get("red") and "IN" in anns and recv is not None and recv.kind in ("tensor", "top") and _reduces_batch(op, recv, args, kwargs):
